@@ -83,3 +83,26 @@ extern "C" void h_nextwork()
     }
     VREACH("end");
 }
+
+// Median time past (the "after the median of the previous 11" part of the header rules): real CBlockIndex::GetMedianTimePast (chain.h, std::sort from
+// libstdc++) on a real chain of MTPN blocks with symbolic times, against the order-statistic definition of the median (no sorting in the oracle).
+#ifndef MTPN
+#define MTPN 11
+#endif
+extern "C" void h_mtp()
+{
+    CBlockIndex blk[MTPN];
+    uint32_t tm[MTPN];
+    for (int i = 0; i < MTPN; i++) { blk[i].nHeight = i; blk[i].pprev = i ? &blk[i - 1] : nullptr; tm[i] = nondet_u32(); blk[i].nTime = tm[i]; }
+    const int64_t got = blk[MTPN - 1].GetMedianTimePast();
+    verif_observe((uint64_t)got);
+    const int n = MTPN < 11 ? MTPN : 11;                 // the block itself and up to 10 ancestors
+    const int first = MTPN - n;
+    // median = element of rank n/2 (0-based) of the multiset: fewer than n/2+1 elements are smaller, at least n/2+1 are smaller or equal
+    int less = 0, leq = 0; bool member = false;
+    for (int i = first; i < MTPN; i++) { if ((int64_t)tm[i] < got) less++; if ((int64_t)tm[i] <= got) leq++; if ((int64_t)tm[i] == got) member = true; }
+    VASSERT(member, "median time past is the time of one of the last 11 blocks");
+    VASSERT(less <= n / 2 && leq >= n / 2 + 1, "median time past is the element of rank n/2 among the times of the block and its (up to) 10 ancestors");
+    VWITNESS(got == (int64_t)tm[MTPN - 1] && MTPN > 1 && tm[0] != tm[MTPN - 1], "the newest block can be the median");
+    VREACH("end");
+}
